@@ -15,6 +15,8 @@ DATA = ('data',)
 NODE = ('node',)
 AST_K = ('ast',)
 PYVAL = ('pyval',)
+ELEM = ('elem',)
+ELEMLIST = ('elemlist',)
 
 
 def REF(c):
@@ -61,6 +63,13 @@ class Sorts:
         Node.declare('NNode', ('data', self.Data), ('left', Node), ('right', Node), ('owned', z3.BoolSort()))
         self.Node = Node.create()
         self.PyVal = z3.DeclareSort('PyVal')
+        # documents as trees (xml.etree Element): tag, text (None-able), ordered children as a cons list
+        Elem = z3.Datatype('Elem')
+        ElemList = z3.Datatype('ElemList')
+        Elem.declare('EElem', ('tag', z3.StringSort()), ('has_text', z3.BoolSort()), ('text', z3.StringSort()), ('kids', ElemList))
+        ElemList.declare('ENil')
+        ElemList.declare('ECons', ('head', Elem), ('tail', ElemList))
+        self.Elem, self.ElemList = z3.CreateDatatypes(Elem, ElemList)
         self._seq_cache = {}
 
     def ref(self, cls):
@@ -95,6 +104,10 @@ class Sorts:
             return self.Node
         if k == 'pyval':
             return self.PyVal
+        if k == 'elem':
+            return self.Elem
+        if k == 'elemlist':
+            return self.ElemList
         if k == 'seq':
             return z3.SeqSort(self.sort_of(kind[1]))
         raise OutOfReach(f'no SMT sort for kind {kind}')
@@ -164,6 +177,22 @@ class VData(Val):
 class VPy(Val):
     """An opaque Python value (Any): only identity / equality is known."""
     kind = PYVAL
+
+    def __init__(self, t):
+        self.t = t
+
+
+class VElem(Val):
+    """an xml.etree Element (value: tag, text, children)"""
+    kind = ELEM
+
+    def __init__(self, t):
+        self.t = t
+
+
+class VElemList(Val):
+    """a list of Elements (cons list)"""
+    kind = ELEMLIST
 
     def __init__(self, t):
         self.t = t
